@@ -108,3 +108,83 @@ pub fn run(shape: &str, nbits: usize, packing: TablePacking) -> Result<(bool, bo
         Err(e) => e.chars().take(160).collect(),
     }))
 }
+
+// ---------------------------------------------------------------------------------------------
+// Coefficients of `decompose_ext_to_base_coeffs` (ALU recomposition path) that reach ordinary ALU consumers: every row that
+// mentions a coefficient must carry the value the decomposition fixed (the hint output is created on the bus by the first
+// ALU row that uses it and read by every later one).  Forgery: ONE consumer row reads another value than the slot holds
+// (its operand is redirected to another coefficient's slot in a clone of the circuit, the real runner propagates, the row's
+// index is restored), everything else is consistent; proven with the prover data of the original circuit.
+// ---------------------------------------------------------------------------------------------
+/// (honest proof verifies, forged statement accepted?, description)
+pub fn coeff_consumer(which: usize, packing: TablePacking) -> Result<(bool, bool, String), String> {
+    use p3_circuit::AluOpKind;
+    let ks = [3u64, 4, 5, 6];
+    let mut b = CircuitBuilder::<EF>::new();
+    let x = b.public_input();
+    let coeffs = b.decompose_ext_to_base_coeffs::<F>(x).map_err(|e| format!("decompose_ext: {e:?}"))?;
+    let mut y = None;
+    for (c, k) in coeffs.iter().zip(ks) {
+        let kc = b.define_const(EF::from_u64(1000 + k));
+        let t = b.mul(*c, kc);
+        y = Some(match y {
+            None => t,
+            Some(acc) => b.add(acc, t),
+        });
+    }
+    let yp = b.public_input();
+    b.connect(y.unwrap(), yp);
+    let circuit = b.build().map_err(|e| format!("build: {e:?}"))?;
+    let cfg = config::baby_bear();
+    let (airs_degrees, pc, npc) = get_airs_and_degrees_with_prep::<BabyBearConfig, _, 4>(&circuit, &packing, &[], &[], ConstraintProfile::Standard).map_err(|e| format!("airs: {e:?}"))?;
+    let (airs, degs): (Vec<_>, Vec<usize>) = airs_degrees.into_iter().unzip();
+    let cpd = CircuitProverData::new(ProverData::from_airs_and_degrees(&cfg, &airs, &degs), pc, npc);
+    let prover = BatchStarkProver::new(cfg).with_table_packing(packing);
+    let xs = [11u64, 22, 33, 44];
+    let xv = EF::from_basis_coefficients_slice(&xs.map(F::from_u64)).unwrap();
+    let yv = |cs: [u64; 4]| -> EF { (0..4).fold(EF::ZERO, |a, i| a + EF::from_u64(cs[i]) * EF::from_u64(1000 + ks[i])) };
+    let prove = |traces: &p3_circuit::Traces<EF>| -> Result<(), String> {
+        match catch_unwind(AssertUnwindSafe(|| {
+            let proof = prover.prove_all_tables(traces, &cpd).map_err(|e| format!("prover refuses: {e:?}"))?;
+            prover.verify_all_tables::<EF>(&proof).map_err(|e| format!("verifier refuses: {e:?}"))
+        })) {
+            Ok(r) => r,
+            Err(_) => Err("prover / verifier panicked".into()),
+        }
+    };
+    let run = |c: &p3_circuit::Circuit<EF>, pubs: &[EF]| -> Result<p3_circuit::Traces<EF>, String> {
+        let mut runner = c.runner();
+        runner.set_public_inputs(pubs).map_err(|e| format!("runner refuses: {e:?}"))?;
+        runner.run().map_err(|e| format!("runner refuses: {e:?}"))
+    };
+    let honest = run(&circuit, &[xv, yv(xs)]).and_then(|t| prove(&t));
+    // the consumer rows: Mul ops whose b operand is one of the constants 1000 + k
+    let const_slot = |k: u64| circuit.ops.iter().find_map(|op| match op {
+        Op::Const { out, val } if *val == EF::from_u64(1000 + k) => Some(*out),
+        _ => None,
+    });
+    let kslots: Vec<WitnessId> = ks.iter().map(|k| const_slot(*k).ok_or("constant not found")).collect::<Result<_, _>>()?;
+    let consumer_a = |c: &p3_circuit::Circuit<EF>, i: usize| c.ops.iter().position(|op| matches!(op, Op::Alu { kind: AluOpKind::Mul, b, .. } if *b == kslots[i]));
+    let (ci, cj) = (consumer_a(&circuit, which).ok_or("consumer op not found")?, consumer_a(&circuit, (which + 1) % 4).ok_or("consumer op not found")?);
+    let slot_of = |idx: usize| match &circuit.ops[idx] {
+        Op::Alu { a, .. } => *a,
+        _ => unreachable!(),
+    };
+    let (slot_i, slot_j) = (slot_of(ci), slot_of(cj));
+    let mut forged = circuit.clone();
+    if let Op::Alu { a, .. } = &mut forged.ops[ci] {
+        *a = slot_j;
+    }
+    // the consumer of coefficient `which` now reads the next coefficient: y follows
+    let mut cs = xs;
+    cs[which] = xs[(which + 1) % 4];
+    let fr = run(&forged, &[xv, yv(cs)]).and_then(|mut t| {
+        let row = t.alu_trace.indices.iter().position(|ix| ix[0] == slot_j && ix[1] == kslots[which]).ok_or("forged consumer row not found in the ALU trace")?;
+        t.alu_trace.indices[row][0] = slot_i;
+        prove(&t)
+    });
+    Ok((honest.is_ok(), fr.is_ok(), match fr {
+        Ok(()) => "accepted".into(),
+        Err(e) => e.chars().take(160).collect(),
+    }))
+}
